@@ -36,6 +36,35 @@ TRUSTED = ["ast"]
 CANON = {"layer0": "step (+1, 0): down, bit at the upper cell", "layer1": "step (0, +1): right, bit at the left cell"}
 
 
+def judge_is_connection(ctx: Ctx, exp: str) -> None:
+    # is_connection: sorted-edge indexing
+    f = ctx.index.func(f"{TU}.is_connection")
+    rets = X.returns_of(f.node)
+    ok = None
+    slot = {}
+    if len(rets) == 1 and isinstance(rets[0].value, ast.Subscript):
+        parts = N.subscript_parts(rets[0].value)
+        srt = None
+        for s in ast.walk(f.node):
+            if isinstance(s, ast.Assign) and isinstance(s.value, ast.Call) and dotted_of(s.value.func) in ("np.sort", "numpy.sort"):
+                srt = (X.U(s.targets[0]), N.const_int(N.kwarg(s.value, "axis")))
+        ddef = X.assignments_to(f.node, X.U(parts[0])) if X.U(parts[0]).isidentifier() else [parts[0]]
+        slot = {"index": X.U(rets[0].value), "sorted": srt, "direction": X.U(ddef[0])[:120] if ddef else None}
+        if srt and len(ddef) == 1:
+            s_ = srt[0]
+            dtxt = X.U(ddef[0]).replace(" ", "")
+            # direction = 1 iff the row difference is zero (horizontal edge)
+            dir_ok = dtxt in (f"(({s_}[:,1,:]-{s_}[:,0,:])[:,0]==0).astype(np.int8)", f"({s_}[:,1,0]-{s_}[:,0,0]==0).astype(np.int8)",
+                              f"({s_}[:,1,0]=={s_}[:,0,0]).astype(np.int8)")
+            dir_bad = dtxt in (f"(({s_}[:,1,:]-{s_}[:,0,:])[:,1]==0).astype(np.int8)", f"(({s_}[:,1,:]-{s_}[:,0,:])[:,0]!=0).astype(np.int8)")
+            idx_ok = len(parts) == 3 and X.U(parts[1]).replace(" ", "") == f"{s_}[:,0,0]" and X.U(parts[2]).replace(" ", "") == f"{s_}[:,0,1]" and srt[1] == 1
+            ok = True if (dir_ok and idx_ok) else (False if (dir_bad or (dir_ok and not idx_ok)) else None)
+            if ok is None and len(parts) == 3:
+                ok = False  # located slot with an unaccepted direction / index expression
+    ctx.judge(f, ok, slot, exp + "; edges are looked up at their (elementwise) lesser endpoint, layer 1 iff the rows are equal",
+              "the batch edge test disagrees with nodes_connected for some orientation of an edge")
+
+
 def rule_V1(ctx: Ctx) -> None:
     exp = f"canonical convention: {CANON}"
     # 1. nodes_connected
@@ -143,32 +172,7 @@ def rule_V1(ctx: Ctx) -> None:
         val_ok = isinstance(st[0].value, ast.Constant) and st[0].value.value is True
         ok = None if les_ok is None else (dir_ok and les_ok and val_ok)
     ctx.judge(f, ok, slot, exp, "rebuilding a maze from its adjacency list stores the bit at the greater endpoint / in the wrong layer")
-    # 5. is_connection
-    f = ctx.index.func(f"{TU}.is_connection")
-    rets = X.returns_of(f.node)
-    ok = None
-    slot = {}
-    if len(rets) == 1 and isinstance(rets[0].value, ast.Subscript):
-        parts = N.subscript_parts(rets[0].value)
-        srt = None
-        for s in ast.walk(f.node):
-            if isinstance(s, ast.Assign) and isinstance(s.value, ast.Call) and dotted_of(s.value.func) in ("np.sort", "numpy.sort"):
-                srt = (X.U(s.targets[0]), N.const_int(N.kwarg(s.value, "axis")))
-        ddef = X.assignments_to(f.node, X.U(parts[0])) if X.U(parts[0]).isidentifier() else [parts[0]]
-        slot = {"index": X.U(rets[0].value), "sorted": srt, "direction": X.U(ddef[0])[:120] if ddef else None}
-        if srt and len(ddef) == 1:
-            s_ = srt[0]
-            dtxt = X.U(ddef[0]).replace(" ", "")
-            # direction = 1 iff the row difference is zero (horizontal edge)
-            dir_ok = dtxt in (f"(({s_}[:,1,:]-{s_}[:,0,:])[:,0]==0).astype(np.int8)", f"({s_}[:,1,0]-{s_}[:,0,0]==0).astype(np.int8)",
-                              f"({s_}[:,1,0]=={s_}[:,0,0]).astype(np.int8)")
-            dir_bad = dtxt in (f"(({s_}[:,1,:]-{s_}[:,0,:])[:,1]==0).astype(np.int8)", f"(({s_}[:,1,:]-{s_}[:,0,:])[:,0]!=0).astype(np.int8)")
-            idx_ok = len(parts) == 3 and X.U(parts[1]).replace(" ", "") == f"{s_}[:,0,0]" and X.U(parts[2]).replace(" ", "") == f"{s_}[:,0,1]" and srt[1] == 1
-            ok = True if (dir_ok and idx_ok) else (False if (dir_bad or (dir_ok and not idx_ok)) else None)
-            if ok is None and len(parts) == 3:
-                ok = False  # located slot with an unaccepted direction / index expression
-    ctx.judge(f, ok, slot, exp + "; edges are looked up at their (elementwise) lesser endpoint, layer 1 iff the rows are equal",
-              "the batch edge test disagrees with nodes_connected for some orientation of an edge")
+    judge_is_connection(ctx, exp)
     # 7. ConnectionEdges._get_edges boundary clears (negated list)
     f = ctx.index.func(f"{MT}.EdgeSubsets.ConnectionEdges._get_edges")
     clears = [s for s in ast.walk(f.node) if isinstance(s, ast.Assign) and isinstance(s.targets[0], ast.Subscript) and isinstance(s.value, ast.Constant) and s.value.value is False]
